@@ -352,6 +352,13 @@ class _FoldConstants(pyc.CodeVisitor):
                     _Constant(('prim', str), v, None, other.op)
                     for v in other.value
                 )
+              elif other_et == bytes:
+                # Iterating over bytes yields ints.
+                other_et = {('prim', int)}
+                other_elts = tuple(
+                    _Constant(('prim', int), v, None, other.op)
+                    for v in other.value
+                )
               else:
                 # We have some malformed code, e.g. [*42]
                 name = other_et.__name__
